@@ -98,11 +98,16 @@ CLAIMS['C01'] = {
              'Theorems conc_bitfield_blocks_disjoint / conc_invariant_all_schedules: for ANY number of threads and EVERY schedule of single atomic '
              'accesses (unbounded), targeted allocations (Bitfield::toggle), searches (set_first_zeros / set_first_zero_rows) and frees of held blocks '
              '(all orders up to the huge order: single-word update, narrow compare-exchange, multi-row with roll-back) never hand out overlapping blocks - an ownership (rely/guarantee) invariant '
-             'preserved by every atomic step.' + PART + 'for the whole allocator (huge counters/markers, tree counters, '
-             'reservations) the all-interleavings statement is not a theorem; that part is explored by scheduler-controlled runs of the real threads '
-             '(preemption-bounded DFS + random schedules) whose event traces are replayed on the Lean interleaving semantics.'),
+             'preserved by every atomic step. Theorems conc_lower_blocks_disjoint / conc_lower_invariant_all_schedules: the same for the WHOLE LOWER '
+             'ALLOCATOR - Lower::get (search, every order up to the tree order), Lower::get_at and Lower::put of held blocks, with the huge-entry counters '
+             'and whole-huge markers: from any quiescent state, for any number of threads, any command lists and every schedule, small blocks of different '
+             'threads never overlap, huge blocks never overlap, and no frame is held both inside a small and a huge block; blocks are aligned. The invariant '
+             '(LInv) is counter + open accounts of the threads = zero bits of the bitfield, and a marked huge frame has an empty bitfield.' + PART +
+             'for the upper level (tree counters, reservations, local slots) the all-interleavings statement is not a theorem; that part is explored by '
+             'scheduler-controlled runs of the real threads (preemption-bounded DFS + random schedules) whose event traces are replayed on the Lean '
+             'interleaving semantics.'),
     'note': TB + ' Upper-level theorems hold for configurations satisfying CfgOk (class ids < 8, ordered policy, tree size < 2^19: every configuration of the repository; derived from elementary checks by CfgOk.of_checks); they depend on the C23 theorem (bv_decide axioms) through the lower search.',
-    'technique': 'Lean 4 refinement proof (all sequential histories) + ownership invariant over the single-access interleaving semantics (bitfield level, all schedules) + trace co-simulation of real threads with an ownership oracle',
+    'technique': 'Lean 4 refinement proof (all sequential histories) + rely/guarantee ownership invariants over the single-access interleaving semantics (bitfields and the whole lower allocator, all schedules, any number of threads) + trace co-simulation of real threads with an ownership oracle',
 }
 CLAIMS['C02'] = {
     'text': ('Theorems put_refines / get_refines / drain_keeps_allocation / change_keeps_allocation / history_keeps_invariant (+ the lower-level '
@@ -123,19 +128,25 @@ CLAIMS['C03'] = {
              'replayed on the real threads by the co-simulation). Theorems seq_history_never_panics / held_free_succeeds_upper / seq_no_panic_lower: '
              'sequentially no call of any history panics and every free of a held block succeeds. Theorems conc_bitfield_no_panic / '
              'conc_free_of_held_succeeds: under EVERY interleaving of any number of threads, at the bitfield level (Bitfield::toggle, all orders), '
-             'no access panics, the roll-back \"Failed undo toggle\" cannot fail and frees of held blocks succeed.' + PART + 'panic-freedom of the '
-             'other sites (set_first_zeros, counters/markers, upper level) under all interleavings is explored (DFS/random schedules with panic capture '
-             'and the held-free oracle, sequential histories), not proved.'),
+             'no access panics, the roll-back \"Failed undo toggle\" cannot fail and frees of held blocks succeed. Theorems conc_lower_no_panic / '
+             'conc_lower_put_of_held_succeeds: for the WHOLE LOWER ALLOCATOR (Lower::get / get_at / put with counters and markers), for callers that free '
+             'blocks at the order they were allocated with, under every interleaving of any number of threads no call panics (Undo failed, undo failed, '
+             'Inc failed, Failed undo search are unreachable; partial_put_huge, where K1 lives, is never entered) and every free of a held block returns Ok.'
+             + PART + 'panic-freedom of the upper level (tree counters, reservations) and of partial frees of huge allocations under all interleavings '
+             'is explored (DFS/random schedules with panic capture and the held-free oracle, sequential histories), not proved; K1 shows that the '
+             'restriction to frees at allocation order is necessary.'),
     'note': TB + ' Upper-level theorems hold for configurations satisfying CfgOk (class ids < 8, ordered policy, tree size < 2^19: every configuration of the repository; derived from elementary checks by CfgOk.of_checks); they depend on the C23 theorem (bv_decide axioms) through the lower search.',
-    'technique': 'Lean 4: refutation by a kernel-checked schedule (decide) + sequential panic-freedom theorems over all histories; trace co-simulation with known-finding matching',
+    'technique': 'Lean 4: refutation by a kernel-checked schedule (decide) + sequential panic-freedom theorems over all histories + rely/guarantee proof of panic-freedom of the lower allocator under all interleavings; trace co-simulation with known-finding matching',
 }
 CLAIMS['C04'] = {
     'text': ('Theorems stats_exact / stats_at_tree_exact / stats_at_huge_exact / huge_free_exact / huge_entirely_free_iff / fast_counters_exact: under the '
              'lower invariant stats() returns exactly the number of free frames, entirely free huge frames and entirely free trees of the allocation '
              'state, the per-huge-frame and per-tree queries are exact and read-only; in every reachable state (upper invariant) the fast counters of a '
              'tree (entry + reservations on it) equal its free frames unless hidden by Offline, and never exceed them (fast = exact - offline, tree by tree).'
+             ' Theorem conc_quiescent_counters_exact: at the quiescent end of EVERY interleaving of any number of threads using the lower allocator every '
+             'huge-entry counter equals the number of free frames of its bitfield again (and is never above it in between).'
              + PART + 'that the programs tree_stats()/validate() add these counters up without panic, stats_at(order 0)/is_free, and the '
-             'end-of-interleaving statement are carried by the accounting oracle of the sequential and concurrent correspondence.'),
+             'end-of-interleaving statement for the tree counters are carried by the accounting oracle of the sequential and concurrent correspondence.'),
     'note': TB + ' Upper-level theorems hold for configurations satisfying CfgOk (class ids < 8, ordered policy, tree size < 2^19: every configuration of the repository; derived from elementary checks by CfgOk.of_checks); they depend on the C23 theorem (bv_decide axioms) through the lower search.',
     'technique': 'Lean 4 theorems from the lower and upper invariants + accounting oracle in the sequential differential and at quiescent ends of co-simulated interleavings',
 }
@@ -145,12 +156,15 @@ CLAIMS['C05'] = {
              'whole-huge markers only inside it; counters arbitrary, a split half done, bitfields of whole huge frames partly filled) and zeroed '
              'volatile buffers, new(Init::Recover) - count_zeros, fill, both loops, Trees::new - never panics, re-establishes the lower and upper '
              'invariants with nothing hidden (fast = exact, C04) and keeps the allocation status of EVERY frame exactly as recorded by markers and bits; '
-             'any history may follow.' + PART + 'that every state a crash can leave at any point of any interleaving satisfies CrashInv, and that at '
-             'that instant the bits of completed allocations are set and those of untouched frames unchanged (the concurrent ownership invariant: proved '
-             'for the bitfield level only, C01), are not theorems: crash points before atomic writes of explored schedules are recovered with the real '
-             'code and checked (held blocks allocated and freeable, frames allocated by the setup still allocated, accounting consistent).'),
+             'any history may follow. Theorems conc_crash_anywhere_recovers / conc_counters_never_over_report: a crash at ANY instant of ANY interleaving of '
+             'any number of threads using the lower allocator (Lower::get / get_at / put at allocation order) leaves a state satisfying CrashInv; recovery '
+             'from it re-establishes the full lower invariant and everything any thread held at the crash - completed allocations and the holdings of calls '
+             'in flight - is still allocated afterwards (so it can be freed at its order); counters never over-report in between.' + PART +
+             'crashes inside upper-level call sequences that free part of a huge allocation (partial_put_huge, K1) are outside the theorem: crash points '
+             'before atomic writes of explored schedules are recovered with the real code and checked (held blocks allocated and freeable, frames '
+             'allocated by the setup still allocated, accounting consistent).'),
     'note': TB + ' A crash is modelled as loss of everything but the lower buffer at an atomic-access boundary.',
-    'technique': 'Lean 4 proof of the recovery program from every weak-invariant state + crash-point oracle inside the trace co-simulation + sequential differential of recover',
+    'technique': 'Lean 4 proof of the recovery program from every weak-invariant state + rely/guarantee invariant showing every state of every interleaving of lower-level calls is such a state + crash-point oracle inside the trace co-simulation + sequential differential of recover',
 }
 CLAIMS['C06'] = {
     'text': ('Theorems free_all_establishes / alloc_all_establishes / lower_free_all_inv / lower_reserve_all_inv: for EVERY frame count (incl. 0) and geometry, from '
